@@ -84,6 +84,57 @@ package SolarUtil
 //@   requires -100 <= y1 && y1 <= 10100 && -100 <= y2 && y2 <= 10100 && validYmd(y1, m1, d1) && validYmd(y2, m2, d2)
 //@   ensures (y1 < y2 || (y1 == y2 && (m1 < m2 || (m1 == m2 && d1 < d2)))) == (jdn(y1, m1, d1) < jdn(y2, m2, d2))
 
+//@ # dayLinear without assuming the day exists in that month (only that it is not inside the 1582 gap)
+//@ lemma dayLinear2(y int, m int, d int) [C04]
+//@   requires -100 <= y && y <= 10100 && 1 <= m && m <= 12 && 1 <= d && d <= 31 && !(y == 1582 && m == 10 && d > 4 && d < 15)
+//@   ensures jdn(y, m, d) == jdn(y, m, 1) + ite(y == 1582 && m == 10 && d >= 15, d-11, d-1)
+
+//@ # ---------------------------------------------------------------- every day number is the jdn of a valid date
+//@ # (explicit inverse: year by a Julian-length estimate corrected by one, month and day by the month brackets)
+//@ spec func yGuess(j int) int
+//@   = divf(4*(j-1721058), 1461)
+
+//@ lemma yearBracket(j int) [C04]
+//@   requires 1721424 <= j && j <= 5373484
+//@   ensures jdn(yGuess(j)-1, 1, 1) <= j && j < jdn(yGuess(j)+2, 1, 1) && 1 <= yGuess(j) && yGuess(j) <= 10000
+
+//@ opaque spec func yOf(j int) int
+//@   = ite(j < jdn(yGuess(j), 1, 1), yGuess(j)-1, ite(j < jdn(yGuess(j)+1, 1, 1), yGuess(j), yGuess(j)+1))
+
+//@ opaque spec func mOf(j int) int
+//@   = ite(j < jdn(yOf(j), 2, 1), 1, ite(j < jdn(yOf(j), 3, 1), 2, ite(j < jdn(yOf(j), 4, 1), 3, ite(j < jdn(yOf(j), 5, 1), 4,
+//@     ite(j < jdn(yOf(j), 6, 1), 5, ite(j < jdn(yOf(j), 7, 1), 6, ite(j < jdn(yOf(j), 8, 1), 7, ite(j < jdn(yOf(j), 9, 1), 8,
+//@     ite(j < jdn(yOf(j), 10, 1), 9, ite(j < jdn(yOf(j), 11, 1), 10, ite(j < jdn(yOf(j), 12, 1), 11, 12)))))))))))
+
+//@ opaque spec func dOf(j int) int
+//@   = ite(yOf(j) == 1582 && mOf(j) == 10 && j-jdn(yOf(j), mOf(j), 1)+1 > 4, j-jdn(yOf(j), mOf(j), 1)+11, j-jdn(yOf(j), mOf(j), 1)+1)
+
+//@ lemma yOfBracket(j int) [C04]
+//@   requires 1721424 <= j && j <= 5373484
+//@   ensures jdn(yOf(j), 1, 1) <= j && j < jdn(yOf(j)+1, 1, 1) && 1 <= yOf(j) && yOf(j) <= 9999
+//@   use yearBracket(j)
+//@   reveal yOf
+
+//@ lemma ymdOf(j int) [C04]
+//@   requires 1721424 <= j && j <= 5373484
+//@   ensures validYmd(yOf(j), mOf(j), dOf(j)) && jdn(yOf(j), mOf(j), dOf(j)) == j && 1 <= yOf(j) && yOf(j) <= 9999
+//@   use yOfBracket(j)
+//@   use yearStep(yOf(j))
+//@   use monthStep(yOf(j), 1)
+//@   use monthStep(yOf(j), 2)
+//@   use monthStep(yOf(j), 3)
+//@   use monthStep(yOf(j), 4)
+//@   use monthStep(yOf(j), 5)
+//@   use monthStep(yOf(j), 6)
+//@   use monthStep(yOf(j), 7)
+//@   use monthStep(yOf(j), 8)
+//@   use monthStep(yOf(j), 9)
+//@   use monthStep(yOf(j), 10)
+//@   use monthStep(yOf(j), 11)
+//@   use monthStep(yOf(j), 12)
+//@   use dayLinear2(yOf(j), mOf(j), dOf(j))
+//@   reveal mOf dOf
+
 //@ # Meeus' formula, integer part: the library's float expression computes the same day number as jdn.
 //@ # 365.25 = 1461/4 exactly; floor(30.6001*k) == floor(306001*k/10000) for the double nearest 30.6001, k in 4..15
 //@ # (checked where it is used: the case split on month folds the product to a constant).
